@@ -364,7 +364,13 @@ func c07Run(cc *run.Case, sh c07Shape, words [][]strategy.Action, closes []float
 	subs := make([]strategy.Strategy, len(words))
 	stubs := make([]*stub, len(words))
 	for i, w := range words {
-		stubs[i] = &stub{name: fmt.Sprintf("stub%d", i), word: w}
+		// distinct strategies may well print the same name (a decorator's name
+		// omits its percentage, say): every third tuple is named alike
+		name := fmt.Sprintf("stub%d", i)
+		if (len(closes)+len(words))%3 == 0 {
+			name = "stub"
+		}
+		stubs[i] = &stub{name: name, word: w}
 		subs[i] = stubs[i]
 	}
 	inst := sh.build(subs, pct)
